@@ -39,16 +39,24 @@ ANCHORS = ["txtorcon.torcontrolprotocol:TorControlProtocol.connectionLost",
            "txtorcon.util:SingleObserver.fire", "txtorcon.util:SingleObserver.already_fired",
            "txtorcon.util:SingleObserver.when_fired"]
 FLOORS = {"quick": {"evaluations": 3000, "deferreds_audited": 8000, "postloss_submissions": 2000,
-                    "disconnect_notifications_audited": 2000,
+                    "disconnect_notifications_audited": 2000, "unanswered_quit_or_signal_audited": 300,
                     "reach:txtorcon.torcontrolprotocol:TorControlProtocol.connectionLost": 3000},
           "thorough": {"evaluations": 60000, "deferreds_audited": 150000, "postloss_submissions": 40000}}
 
 
 def gen_case(rnd, boot_in_run=False, max_cmds=6):
     from .c01 import gen_session
-    cmds = gen_session(rnd, max_cmds=max_cmds)
+    cmds = gen_session(rnd, max_cmds=max_cmds, dups=True)
     for c in cmds:
         c.pop("api", None)          # C03 judges firing/exactly-once, not line content
+    # commands of the public API whose meaning invites special treatment at a disconnect
+    if rnd.random() < 0.3:
+        for c in rnd.sample(cmds, min(len(cmds), rnd.choice([1, 1, 2]))):
+            if rnd.random() < 0.7:
+                c.update({"cmd": "QUIT", "api": "quit", "perline": False, "reply": (250, [("end", "closing connection")])})
+            else:
+                c.update({"cmd": "SIGNAL " + rnd.choice(["HALT", "SHUTDOWN", "NEWNYM"]), "api": "signal",
+                          "perline": False, "reply": (250, [("end", "OK")])})
     if boot_in_run:
         for c in cmds:
             if c["when"][0] == "bytes":
@@ -72,6 +80,8 @@ def gen_case(rnd, boot_in_run=False, max_cmds=6):
             when = ("fire", rnd.randrange(0, n + j))      # re-entrant from an earlier command's (err)back
         cmds.append({"cmd": "POST%d x" % j, "perline": perline, "reply": (250, [("end", "OK")]),
                      "when": when, "post": True, "late_watch": when == ("postloss",) and rnd.random() < 0.2})
+        if rnd.random() < 0.1:
+            cmds[-1].update({"cmd": "QUIT", "api": "quit", "perline": False})
     total = sum(len(R.encode(*c["reply"])) for c in cmds if not c.get("post"))
     return {"cmds": cmds, "total": total + (ctl_boot_len() if boot_in_run else 0),
             "boot_in_run": boot_in_run,
@@ -219,7 +229,7 @@ def run_case(case, rec):
         if r.submitted_t is None:
             continue            # trigger never happened (e.g. per-line trigger after the cut)
         o = r.outcome
-        li = s.line_index(r.spec["cmd"])
+        li = s.line_index(r.spec["cmd"], r.occ)
         answered = (li is not None and li < len(s.reply_ends)
                     and s.reply_ends[li] <= delivered_at_cut)
         if not answered:
@@ -250,6 +260,8 @@ def run_case(case, rec):
             elif not o.ok and type(o.value).__name__ != "TorProtocolError":
                 V("answered-command-lost-its-result", {"cmd": r.idx, "got": o.describe()})
         else:
+            if r.spec.get("api") in ("quit", "signal"):
+                rec.count("unanswered_quit_or_signal_audited")
             if o.ok or type(o.value).__name__ != "TorDisconnectError":
                 V("unanswered-command-not-failed-with-disconnect", {"cmd": r.idx, "got": o.describe(),
                                                                      "post": bool(r.spec.get("post"))})
